@@ -32,7 +32,7 @@ type c13Op struct {
 	K int   `json:"k"`
 	A int   `json:"a"`
 	B int   `json:"b,omitempty"`
-	X mon.F `json:"x,omitempty"`
+	X mon.F `json:"x"` // no omitempty: a replayed Add(-0) must stay Add(-0)
 }
 
 // Observation policies.
@@ -203,6 +203,7 @@ func c13Judge(w *mon.W, c c13Case) {
 	pokedEmpty := make([]bool, na)         // a reader was called while it held no value (or on a part it absorbed)
 	pokedSingle := make([]bool, na)        // ... while it held one value
 	bothEmpty := make([]bool, na)          // receiver of an empty<-empty Combine, still empty
+	strRead := make([]bool, na)            // String() was called while it held two or more values (result discarded)
 	targets := make([]map[int]bool, na)
 	const c13None = -2
 	for i := range mods {
@@ -273,7 +274,10 @@ func c13Judge(w *mon.W, c c13Case) {
 		v = ref.F64(rf.Var)
 		mean, msq := ref.F64(rf.Mean), ref.F64(rf.MSq)
 		k := c13C * fn * c13Eps
-		tol = k*math.Sqrt(v*(v+mean*mean)) + k*k*msq
+		// sqrt(v*(v+mean^2)) as sd*hypot(sd, mean): no fourth power of the data
+		// is formed, so |x| up to 1e150 neither overflows nor underflows here
+		sd := math.Sqrt(v)
+		tol = k*sd*math.Hypot(sd, mean) + k*k*msq
 		kappa = rf.Kappa()
 		if kappa > maxKappa && !math.IsInf(kappa, 0) {
 			maxKappa = kappa
@@ -298,6 +302,7 @@ func c13Judge(w *mon.W, c c13Case) {
 		if inconclusive {
 			return
 		}
+		w.HitIf(strRead[i], "string-read-then-judged")
 		fn := float64(n)
 		switch k {
 		case c13Mean:
@@ -399,7 +404,20 @@ func c13Judge(w *mon.W, c c13Case) {
 	poke := func(rs *mon.Rand) {
 		for i := range accs {
 			n := mods[i].N()
-			if n > 1 || rs.Intn(3) != 0 {
+			if n > 1 {
+				// String() where all it prints is defined: the text is not judged,
+				// what the call leaves behind is (by every later observation)
+				if rs.Intn(4) == 0 {
+					if _, pmsg := c13Read(&accs[i], c13Str); pmsg != "" {
+						w.Note("String-panicked")
+					}
+					w.EvalN("String-read", 1)
+					pending[i] = 0
+					strRead[i] = true
+				}
+				continue
+			}
+			if rs.Intn(3) != 0 {
 				continue
 			}
 			cand := []int{c13Var, c13SD, c13Str}
@@ -471,6 +489,17 @@ func c13Judge(w *mon.W, c c13Case) {
 			}
 			bothEmpty[a] = false
 			w.HitIf(m.N() > 0 && (x < m.Min || x > m.Max), "add-new-extreme")
+			if n0 := m.N(); n0 >= 1 {
+				w.HitIf(n0 >= 2 && m.MaxAbs == 0 && x != 0, "zero-run-then-nonzero")
+				w.HitIf(n0 >= 2 && m.MaxAbs > 0 && x == 0 && m.Vals[n0-1] == 0, "zero-run-after-nonzero")
+				w.HitIf(n0 >= 8 && x != m.Vals[n0-1] && ref.StreamTailRun(m.Vals) >= 8, "constant-run>=8-then-different")
+				if x != 0 {
+					// the correctly rounded sum so far does not move when x is added
+					t := ref.F64(m.S)
+					w.HitIf(t+x == t, "add-absorbed-by-total")
+				}
+			}
+			w.HitIf(math.Abs(x) >= 1e100 || (x != 0 && math.Abs(x) <= 1e-100), "magnitude-beyond-1e100")
 			nAdd++
 			if x > 0 {
 				nPos++
@@ -510,12 +539,20 @@ func c13Judge(w *mon.W, c c13Case) {
 				w.HitIf(pending[b] > 0, "argument-pending-writes")
 				w.HitIf(pending[a] > 0, "receiver-pending-writes")
 				w.HitIf(pending[a] >= 2 && pending[b] >= 2, "both-sides-pending-writes")
+				w.HitIf(m.MaxAbs == 0 && o.MaxAbs == 0, "merge-both-sides-all-zero")
+				w.HitIf((m.MaxAbs == 0) != (o.MaxAbs == 0), "merge-one-side-all-zero")
+				if m.N() >= 2 && o.N() >= 2 {
+					ma, sa := m.MeanSD()
+					mb, sb := o.MeanSD()
+					w.HitIf(sa > 0 && sb > 0 && math.Abs(ma-mb) > 1000*math.Max(sa, sb), "merge-separated-distributions")
+				}
 			}
 			if o.N() > 0 {
 				bothEmpty[a] = false
 				pending[a]++
 				pokedEmpty[a] = pokedEmpty[a] || pokedEmpty[b]
 				pokedSingle[a] = pokedSingle[a] || pokedSingle[b]
+				strRead[a] = strRead[a] || strRead[b]
 			}
 			if targets[b] == nil {
 				targets[b] = map[int]bool{}
@@ -617,7 +654,22 @@ func c13Judge(w *mon.W, c c13Case) {
 // value generators
 
 var c13KindNames = []string{"pos", "neg", "mixed", "offset+", "offset-", "const", "smallint+", "smallint0",
-	"wide", "ascending+", "descending-", "scaled+", "scaled-", "offset1e9+", "offset1e9-"}
+	"wide", "ascending+", "descending-", "scaled+", "scaled-", "offset1e9+", "offset1e9-",
+	"allzero", "zeros-then-nonzero", "nonzero-then-zeros", "construn-then-other", "absorbed", "two-cluster"}
+
+// kinds by name where the generators refer to them
+const (
+	c13KConst     = 5
+	c13KAllZero   = 15
+	c13KZerosThen = 16
+	c13KThenZeros = 17
+	c13KConstRun  = 18
+	c13KAbsorbed  = 19
+	c13KTwoClust  = 20
+)
+
+// c13SubKinds: what the non-zero part of the zero-run kinds is drawn from.
+var c13SubKinds = []int{0, 1, 2, 3, 4, 6, 8, 9, 10, 11, 12, 13}
 
 // c13Vals draws n values of one kind. One-signed kinds matter: the Min=0 /
 // Max=0 artefacts of a merge with an empty side are invisible on data that
@@ -651,6 +703,9 @@ func c13Vals(rng *mon.Rand, kind, n int) []float64 {
 		}
 	case 5:
 		c := rng.Uniform(0.5, 10) * scale * rng.Sign()
+		if rng.Intn(8) == 0 { // a fixed share of the constants is zero, of either sign
+			c = math.Copysign(0, rng.Sign())
+		}
 		for i := range xs {
 			xs[i] = c
 		}
@@ -672,10 +727,76 @@ func c13Vals(rng *mon.Rand, kind, n int) []float64 {
 			xs[i] = v
 			v += rng.Uniform(0, 1) * scale
 		}
-	case 11, 12:
-		sc := math.Pow(10, float64(rng.PickI(-60, -30, 30, 60)))
+	case 11, 12: // 5e-150 <= |x| <= 1e150
+		sc := math.Pow(10, float64(rng.PickI(-149, -100, -60, -30, 30, 60, 100, 149)))
 		for i := range xs {
 			xs[i] = rng.Uniform(0.5, 10) * sc
+		}
+	case c13KAllZero: // in a quarter of the draws some of the zeros are -0
+		if rng.Intn(4) == 0 {
+			for i := range xs {
+				if rng.Bool() {
+					xs[i] = math.Copysign(0, -1)
+				}
+			}
+		}
+	case c13KZerosThen, c13KThenZeros: // a run of zeros before / after values of another kind
+		if n == 0 {
+			break
+		}
+		nz := rng.Intn(2)
+		if n >= 2 {
+			nz = rng.Range(1, n-1)
+		}
+		rest := c13Vals(rng, c13SubKinds[rng.Intn(len(c13SubKinds))], n-nz)
+		if kind == c13KZerosThen {
+			copy(xs[nz:], rest)
+		} else {
+			copy(xs, rest)
+		}
+	case c13KConstRun: // a constant run (8 or more values when n allows) and then something else
+		c := rng.Uniform(0.5, 10) * scale * rng.Sign()
+		run := n - 1
+		if n >= 10 {
+			run = rng.Range(8, n-1)
+		}
+		style := rng.Intn(3)
+		c2 := c * (1 + rng.Sign()*math.Pow(10, -float64(rng.Range(0, 8))))
+		for i := range xs {
+			switch {
+			case i < run || n == 1:
+				xs[i] = c
+			case style == 0: // nearby values, each at its own distance (kappa up to about 1e10)
+				xs[i] = c * (1 + rng.Sign()*math.Pow(10, -float64(rng.Range(0, 8))))
+			case style == 1:
+				xs[i] = c + rng.Norm()*math.Abs(c)
+			default: // a second constant run
+				xs[i] = c2
+			}
+		}
+	case c13KAbsorbed: // one value so large that Total (and the running mean) absorb most of the others
+		for i := range xs {
+			xs[i] = rng.Uniform(0.5, 10) * scale * rng.Sign()
+		}
+		if n > 0 {
+			p := rng.Intn(4)
+			if p >= n {
+				p = n - 1
+			}
+			xs[p] = rng.Uniform(0.5, 10) * math.Pow(10, float64(rng.PickI(15, 16, 17, 18, 20, 25))) * scale * rng.Sign()
+		}
+	case c13KTwoClust: // two clusters 2e3..1e9 standard deviations apart; the stream changes cluster once
+		m1 := rng.Uniform(-10, 10) * scale
+		sep := math.Pow(10, rng.Uniform(3.3, 9)) * scale * rng.Sign()
+		bp := rng.Range(0, n)
+		if n >= 4 {
+			bp = rng.Range(2, n-2)
+		}
+		for i := range xs {
+			xs[i] = m1 + rng.Norm()*scale
+			if i >= bp {
+				xs[i] += sep
+			}
 		}
 	}
 	if kind == 1 || kind == 4 || kind == 10 || kind == 12 || kind == 14 {
@@ -688,7 +809,8 @@ func c13Vals(rng *mon.Rand, kind, n int) []float64 {
 
 func c13PickKind(rng *mon.Rand) int {
 	// one-signed kinds get most of the weight
-	return rng.PickI(0, 1, 0, 1, 2, 3, 4, 3, 4, 5, 6, 7, 8, 9, 10, 11, 12, 13, 14)
+	return rng.PickI(0, 1, 0, 1, 2, 3, 4, 3, 4, 5, 6, 7, 8, 9, 10, 11, 12, 13, 14,
+		c13KAllZero, c13KZerosThen, c13KThenZeros, c13KConstRun, c13KAbsorbed, c13KTwoClust)
 }
 
 func c13Add(a int, x float64) c13Op { return c13Op{K: 0, A: a, X: mon.F(x)} }
@@ -736,15 +858,36 @@ type c13Gen struct {
 	ops  []c13Op
 	vals []float64
 	vi   int
+	// per: each accumulator draws from its own list (vals unused)
+	per [][]float64
+	pi  []int
 }
 
 func newC13Gen(rng *mon.Rand, na, nvals, kind int) *c13Gen {
 	return &c13Gen{rng: rng, na: na, cnt: make([]int, na), vals: c13Vals(rng, kind, nvals)}
 }
 
-func (g *c13Gen) left() int { return len(g.vals) - g.vi }
+func (g *c13Gen) left() int {
+	if g.per != nil {
+		n := 0
+		for a := range g.per {
+			n += len(g.per[a]) - g.pi[a]
+		}
+		return n
+	}
+	return len(g.vals) - g.vi
+}
 
 func (g *c13Gen) add(a int) bool {
+	if g.per != nil {
+		if g.pi[a] >= len(g.per[a]) || g.cnt[a] >= c13MaxCount {
+			return false
+		}
+		g.ops = append(g.ops, c13Add(a, g.per[a][g.pi[a]]))
+		g.pi[a]++
+		g.cnt[a]++
+		return true
+	}
 	if g.vi >= len(g.vals) || g.cnt[a] >= c13MaxCount {
 		return false
 	}
@@ -986,6 +1129,93 @@ func c13GenRepeat(rng *mon.Rand) c13Case {
 	return g.done("repeat/" + c13KindNames[kind])
 }
 
+// shards: every accumulator is fed from its own list, of its own kind and
+// scale (map/reduce over heterogeneous sources); some merges on the way, then
+// everything gathered by a star or by a random tree. hetero: at least two fed
+// accumulators are of different kinds.
+func c13GenShards(rng *mon.Rand) (c c13Case, hetero bool) {
+	na := rng.Range(2, c13MaxAcc)
+	total := rng.PickI(rng.Range(4, 24), rng.Range(10, 80), rng.Range(60, c13MaxCount))
+	g := &c13Gen{rng: rng, na: na, cnt: make([]int, na), per: make([][]float64, na), pi: make([]int, na)}
+	wts := make([]float64, na)
+	sum := 0.0
+	for i, a := range rng.Perm(na) {
+		if i < 2 || rng.Intn(5) != 0 { // at least two shards are fed
+			wts[a] = rng.Uniform(0.1, 1)
+			sum += wts[a]
+		}
+	}
+	// in a third of the cases every shard is a cluster of the same spread
+	// around its own centre, the centres thousands to 1e9 spreads apart
+	apart := rng.Intn(3) == 0
+	spread := math.Pow(10, float64(rng.Range(-12, 12)))
+	if rng.Bool() {
+		spread = 1
+	}
+	var names []string
+	first := -1
+	for a := 0; a < na; a++ {
+		if wts[a] == 0 {
+			names = append(names, "-")
+			continue
+		}
+		n := int(float64(total) * wts[a] / sum)
+		if n < 2 {
+			n = 2
+		}
+		kind := c13PickKind(rng)
+		if rng.Intn(4) == 0 {
+			kind = rng.PickI(c13KAllZero, c13KZerosThen, c13KThenZeros, c13KConst)
+		}
+		if apart {
+			kind = 2
+			centre := math.Pow(10, rng.Uniform(3.3, 9)) * spread * rng.Sign()
+			xs := make([]float64, n)
+			for i := range xs {
+				xs[i] = centre + rng.Norm()*spread
+			}
+			g.per[a] = xs
+			names = append(names, "cluster")
+			hetero = true
+			continue
+		}
+		g.per[a] = c13Vals(rng, kind, n)
+		names = append(names, c13KindNames[kind])
+		if first < 0 {
+			first = kind
+		} else if kind != first {
+			hetero = true
+		}
+	}
+	pComb := rng.Pick(0, 0, 0.03, 0.15)
+	for it := 0; g.left() > 0 && it < 2000; it++ {
+		a := rng.Intn(na)
+		if rng.Float64() < pComb {
+			g.comb(a, g.other(a))
+			continue
+		}
+		g.addN(a, rng.Range(1, 8))
+	}
+	if rng.Bool() { // star
+		root := rng.Intn(na)
+		for _, b := range rng.Perm(na) {
+			g.comb(root, b)
+		}
+	} else { // random binary tree
+		live := rng.Perm(na)
+		for len(live) > 1 {
+			i := rng.Intn(len(live))
+			j := rng.Intn(len(live) - 1)
+			if j >= i {
+				j++
+			}
+			g.comb(live[i], live[j])
+			live = append(live[:j], live[j+1:]...)
+		}
+	}
+	return g.done("shards/" + strings.Join(names, "+")), hetero
+}
+
 // ---------------------------------------------------------------------------
 
 // c13Watch gives a history its observation policy. poke: every pokeIn-th
@@ -1010,18 +1240,21 @@ func c13DrawPol(rng *mon.Rand) int {
 }
 
 func c13Run(r *mon.Run) {
-	r.Rule("histories of Add and Combine over up to 6 accumulators of up to 200 logical values each, each under an observation policy (which methods are called when is part of the history, since an implementation may update state lazily in its readers): all statistics of all accumulators after every step in a fixed order / only the accumulator just written / nothing until the last step / each accumulator with a per-case probability, the last three with the observers in a drawn order or a single observer only (a 'cold' Variance, StdDev, RMS or Mean), and everything read after the last step. The exported fields are read after every step. An observed statistic is compared with the 400-bit batch statistic of the values the accumulator logically contains (Count, Weight exact; Min, Max equal; Total within 16 n eps sum|x|; Mean within 16 n eps max|x|; RMS within 16 n eps relative; for n>=2 Variance within 16 n eps kappa var (+ second-order term), StdDev the square root of that window); a statistic already observed since the accumulator was last written, and the fields of every accumulator but the receiver, must be bit-identical to what they were. In a share of the cases Mean, RMS, Variance, StdDev and String are also called where the statement gives them no meaning (no value; one value for Variance, StdDev, String) and the results discarded. Enumerated: every Add-only stream length 1..200 x value kind read once at the end; every split point of streams of length <=12 in three arrival/merge orders x all value kinds, once observed after every step, once only at the end, once under a drawn policy; every pair of split points of streams <=8 (thorough 12) x four merge orders likewise; every sequence of 5 (thorough 6) operations from {Add to one of 3, Combine of an ordered pair of 3} on positive and on negative data observed after every step, and every such sequence of 1..5 (6) operations observed only at the end. Random: free, merge-tree, empty-side and repeated-source histories under drawn policies. Non-trivial: the history hits a class (empty side, both-empty-then-add, new extreme, depth, kappa, repeat source, pending writes at a Combine, cold reader ...); distinct by hash of the operation list and the observation policy.")
-	r.Assume("values are finite with 1e-72 <= |x| <= 1e72 or zero: squares neither overflow nor underflow",
+	r.Rule("histories of Add and Combine over up to 6 accumulators of up to 200 logical values each, each under an observation policy (which methods are called when is part of the history, since an implementation may update state lazily in its readers): all statistics of all accumulators after every step in a fixed order / only the accumulator just written / nothing until the last step / each accumulator with a per-case probability, the last three with the observers in a drawn order or a single observer only (a 'cold' Variance, StdDev, RMS or Mean), and everything read after the last step. The exported fields are read after every step. An observed statistic is compared with the 400-bit batch statistic of the values the accumulator logically contains (Count, Weight exact; Min, Max equal; Total within 16 n eps sum|x|; Mean within 16 n eps max|x|; RMS within 16 n eps relative; for n>=2 Variance within 16 n eps kappa var (+ second-order term), StdDev the square root of that window); a statistic already observed since the accumulator was last written, and the fields of every accumulator but the receiver, must be bit-identical to what they were. In a share of the cases Mean, RMS, Variance, StdDev and String are also called where the statement gives them no meaning (no value; one value for Variance, StdDev, String) and the results discarded. Enumerated: every Add-only stream length 1..200 x value kind read once at the end; every split point of streams of length <=12 in three arrival/merge orders x all value kinds, once observed after every step, once only at the end, once under a drawn policy; every pair of split points of streams <=8 (thorough 12) x four merge orders likewise; every sequence of 5 (thorough 6) operations from {Add to one of 3, Combine of an ordered pair of 3} on positive and on negative data observed after every step, and every such sequence of 1..5 (6) operations observed only at the end. Random: free, merge-tree, empty-side, repeated-source and heterogeneous-shard (every accumulator fed from its own value kind and scale) histories under drawn policies. Value kinds include all-zero data (+0 and -0), a run of zeros before or after non-zero values, a zero constant, a constant run of 8 or more values followed by different ones, one value that absorbs the others in Total, two clusters 2e3..1e9 standard deviations apart, and magnitudes from 5e-150 to 1e150; where the batch statistic is exactly 0 (all-zero data) the tolerance is 0 and exactly 0 is demanded. In the cases with reads in undefined states String() is also called on accumulators holding two or more values (text not judged). Non-trivial: the history hits a class (empty side, both-empty-then-add, new extreme, depth, kappa, repeat source, pending writes at a Combine, cold reader ...); distinct by hash of the operation list and the observation policy.")
+	r.Assume("values are finite with 5e-150 <= |x| <= 1e150 or zero (of either sign): squares and sums of 200 squares neither overflow nor become subnormal",
 		"offset/spread (the condition number kappa of the variance) is at most about 1e10, the design's hostile range",
 		"statistics of an accumulator holding no value are not judged beyond Count=0, Total=0; Variance and StdDev only from two values; a reader called in such a state may return anything (or panic) but must leave the accumulator usable",
 		"calling a reader does not change the value any reader returns later (a statistic read twice with no Add/Combine of that accumulator in between is bit-identical)",
-		"s.Combine(s) is outside the quantifier ('any two') and not generated")
+		"s.Combine(s) is not generated: the statement speaks of 'any two StreamStats', 'both sequences' and a split of one sequence, which a self-merge is not (there is no second sequence, and 'as if o's values were added to s' is self-referential when o is s); an implementation that updates s in place before it has read all of o satisfies the statement for any two distinct accumulators")
 	r.Gate("empty-receiver", "empty-argument", "both-empty-then-add", "all-positive-data", "all-negative-data",
 		"positive-with-empty-side", "negative-with-empty-side", "merge-depth>=3", "kappa>=1e6", "repeat-source",
 		"argument-has-new-min", "argument-has-new-max",
 		"argument-pending-writes", "receiver-pending-writes", "both-sides-pending-writes", "observed-only-at-end",
 		"unobserved-run>=32", "cold-Mean", "cold-RMS", "cold-Variance", "cold-StdDev", "add-only-read-once",
-		"read-while-empty-then-judged", "read-while-single-then-judged")
+		"read-while-empty-then-judged", "read-while-single-then-judged",
+		"merge-both-sides-all-zero", "merge-one-side-all-zero", "zero-run-then-nonzero", "zero-run-after-nonzero",
+		"constant-run>=8-then-different", "add-absorbed-by-total", "merge-separated-distributions",
+		"heterogeneous-shards", "string-read-then-judged", "magnitude-beyond-1e100")
 	if err := ref.StreamSelfTest(); err != nil {
 		r.Inconclusive("reference self-test failed: " + err.Error())
 		return
@@ -1120,7 +1353,7 @@ func c13Run(r *mon.Run) {
 	alphabet := []c13Op{c13Add(0, 0), c13Add(1, 0), c13Add(2, 0),
 		c13Comb(0, 1), c13Comb(0, 2), c13Comb(1, 0), c13Comb(1, 2), c13Comb(2, 0), c13Comb(2, 1)}
 	enumCase := func(w *mon.W, code, length int, neg bool, tag string) c13Case {
-		kind := w.Rng.PickI(0, 3, 6, 9, 13)
+		kind := w.Rng.PickI(0, 0, 3, 3, 6, 6, 9, 9, 13, 13, c13KConst, c13KAllZero, c13KZerosThen, c13KThenZeros)
 		vals := c13Vals(w.Rng, kind, length)
 		c := c13Case{NAcc: 3, Tag: tag + "/" + c13KindNames[kind]}
 		if neg {
@@ -1170,11 +1403,16 @@ func c13Run(r *mon.Run) {
 		c13Judge(w, c13Watch(w.Rng, enumCase(w, code, length, idx%2 == 1, "enum-ops-final"), c13PolFinal, 8))
 	})
 
-	// 4. random histories (3 000 quick / 50 000 thorough), each under a drawn
+	// 4. random histories (3 600 quick / 60 000 thorough), each under a drawn
 	// observation policy
 	watch := func(w *mon.W, c c13Case) { c13Judge(w, c13Watch(w.Rng, c, c13DrawPol(w.Rng), 3)) }
 	r.Parallel("hist-free", r.Pick(1200, 20000), func(w *mon.W, i int) { watch(w, c13GenFree(w.Rng)) })
 	r.Parallel("hist-tree", r.Pick(800, 14000), func(w *mon.W, i int) { watch(w, c13GenTree(w.Rng)) })
 	r.Parallel("hist-empties", r.Pick(500, 8000), func(w *mon.W, i int) { watch(w, c13GenEmpties(w.Rng, i)) })
 	r.Parallel("hist-repeat", r.Pick(500, 8000), func(w *mon.W, i int) { watch(w, c13GenRepeat(w.Rng)) })
+	r.Parallel("hist-shards", r.Pick(600, 10000), func(w *mon.W, i int) {
+		c, hetero := c13GenShards(w.Rng)
+		w.HitIf(hetero, "heterogeneous-shards")
+		watch(w, c)
+	})
 }
